@@ -879,7 +879,11 @@ class MappedSeq:
         from .absbin import is_valueof
         if is_valueof(self.f) and self.seq.kind == "item":
             it.trust("sum(map(valueof, s)) = rtot(s)  (definition of rtot)")
-            return SV(L.rtot(self.seq.arr, self.seq.lo, self.seq.hi))
+            a, lo, hi = self.seq.arr, self.seq.lo, self.seq.hi
+            for d in (0, 1, 2):          # definitional unfoldings, enough to evaluate the total of a window of at most three elements
+                it.assume(L.unfold_right(a, lo, hi - d))
+                it.assume(L.empty_range(a, lo, hi - d))
+            return SV(L.rtot(a, lo, hi))
         raise Unsupported("sum(map(f, symbolic sequence)) for f other than valueof")
 
 
@@ -1665,6 +1669,77 @@ def sseq_comprehension(it: Interp, e, env, mod, src: SSeq):
         if isinstance(body, bool):
             return QuantGen(k, src, z3.BoolVal(body))
     raise Unsupported("list comprehension over a symbolic-length sequence")
+
+
+class ClassWindows:
+    """LIBRARY LEMMA (trusted, premises machine-checked): let s be sorted in DESCENDING order of key K, and let P1, P2, P3 be the conditions of three
+    successive comprehensions [x for x in s if Pi(x)].  If P1 is upward closed in K, P3 downward closed, and every item satisfies exactly one of
+    P1, P2, P3 (all three checked by the solver for arbitrary items), then the three results are the consecutive windows s[0:a], s[a:b], s[b:n].
+    The hook returns the windows as the comprehensions are met; if a premise fails the construct is Unsupported (undecided, the bounded-shape contract decides)."""
+    def __init__(self):
+        self.src = None
+        self.preds = []
+        self.a = self.b = None
+
+    def pred(self, it, e, env, mod):
+        g = e.generators[0]
+        if len(e.generators) != 1 or not isinstance(g.target, ast.Name) or not isinstance(e.elt, ast.Name) or e.elt.id != g.target.id or not g.ifs:
+            raise Unsupported("comprehension over a symbolic-length sequence that is not a plain filter")
+
+        def P(term):
+            cenv = Env(env)
+            cenv.vars[g.target.id] = ItemV(term)
+            r = True
+            for c in g.ifs:
+                v = it.eval(c, cenv, mod)
+                r = it.bool_and(r, v if isinstance(v, (bool, SV)) else truth(it, v))
+            return term_of(r)
+        return P
+
+    def __call__(self, it, e, env, mod, src):
+        sb = getattr(src, "sorted_by", None)
+        if sb is None or sb[1] is not True or src.frozen and False:
+            raise Unsupported("filter of a sequence that is not known to be sorted in descending order")
+        key = sb[0]
+        K = lambda t: term_of(it.call(key, [ItemV(t)]))
+        P = self.pred(it, e, env, mod)
+        if self.src is None:
+            self.src = (src.arr, src.lo, src.hi)
+        elif not (self.src[0] is src.arr or z3.eq(self.src[0], src.arr)):
+            raise Unsupported("filters of different sequences")
+        arr, lo, hi = self.src
+        self.preds.append(P)
+        k = L.fresh("k", L.IntS)
+        x, y = L.fresh("x", L.Item), L.fresh("y", L.Item)
+        n = len(self.preds)
+        it.trust("lemma: threshold classes of a sequence sorted by value are consecutive windows (premises checked by the solver)")
+        if n == 1:
+            if it.check(z3.And(K(x) >= K(y), P(y), z3.Not(P(x)))) != "unsat":
+                raise Unsupported("first filter is not upward closed in the sort key")
+            self.a = L.fresh("cls_a", L.IntS)
+            it.assume(z3.And(lo <= self.a, self.a <= hi))
+            it.assume(z3.ForAll([k], z3.Implies(z3.And(lo <= k, k < hi), P(arr[k]) == (k < self.a))))
+            w = SSeq(arr, lo, self.a, src.kind, "class1")
+        elif n == 2:
+            self.b = L.fresh("cls_b", L.IntS)
+            it.assume(z3.And(self.a <= self.b, self.b <= hi))
+            it.assume(z3.ForAll([k], z3.Implies(z3.And(lo <= k, k < hi), P(arr[k]) == z3.And(self.a <= k, k < self.b))))
+            w = SSeq(arr, self.a, self.b, src.kind, "class2")
+        elif n == 3:
+            P1, P2, P3 = self.preds
+            if it.check(z3.And(K(x) <= K(y), P3(y), z3.Not(P3(x)))) != "unsat":
+                raise Unsupported("third filter is not downward closed in the sort key")
+            one = z3.And(z3.Or(P1(x), P2(x), P3(x)), z3.Not(z3.And(P1(x), P2(x))), z3.Not(z3.And(P1(x), P3(x))), z3.Not(z3.And(P2(x), P3(x))))
+            if it.check(z3.Not(one)) != "unsat":
+                raise Unsupported("the three filters are not an exhaustive and exclusive classification of the items")
+            it.assume(z3.ForAll([k], z3.Implies(z3.And(lo <= k, k < hi), P(arr[k]) == (self.b <= k))))
+            w = SSeq(arr, self.b, hi, src.kind, "class3")
+        else:
+            raise Unsupported("more than three filters of the sorted sequence")
+        w.sorted_by = sb
+        for p in (w.lo, w.hi):
+            it.assume(L.empty_range(arr, p, p))
+        return w
 
 
 class QuantGen:
